@@ -20,6 +20,8 @@ import (
 	"github.com/cespare/xxhash/v2"
 	"github.com/prometheus/prometheus/model/labels"
 	"google.golang.org/grpc"
+	"google.golang.org/grpc/codes"
+	"google.golang.org/grpc/status"
 
 	"github.com/prometheus/prometheus/storage"
 
@@ -69,6 +71,11 @@ type StoreIn struct {
 	// "timeout" Recv blocks after FailAt frames until the per-frame timeout cancels the stream
 	Fail   string `json:"fail,omitempty"`
 	FailAt int    `json:"fail_at,omitempty"`
+	// FailKind: the error value an "open"/"recv" failure returns: "" plain error | "grpc" status error |
+	// "canceled" context.Canceled | "deadline" context.DeadlineExceeded | "ueof" io.ErrUnexpectedEOF |
+	// "wrapueof" an error wrapping io.ErrUnexpectedEOF | "wrapeof" an error that WRAPS io.EOF
+	// (e.g. net/http `Post "...": EOF` as PrometheusStore.Series wraps it)
+	FailKind string `json:"fail_kind,omitempty"`
 }
 
 type Input struct {
@@ -130,6 +137,28 @@ func MkFrame(f FrameIn) *storepb.SeriesResponse {
 	}
 	panic("bad frame kind " + f.Kind)
 }
+
+// MkErr builds the injected error of the given kind.
+func MkErr(kind, what string) error {
+	switch kind {
+	case "grpc":
+		return status.Error(codes.Unavailable, "injected "+what+" failure")
+	case "canceled":
+		return context.Canceled
+	case "deadline":
+		return context.DeadlineExceeded
+	case "ueof":
+		return io.ErrUnexpectedEOF
+	case "wrapueof":
+		return fmt.Errorf("injected %s failure: Post \"http://store/api\": %w", what, io.ErrUnexpectedEOF)
+	case "wrapeof":
+		return fmt.Errorf("injected %s failure: Post \"http://store/api\": %w", what, io.EOF)
+	}
+	return errors.New("injected " + what + " failure")
+}
+
+// WrapsEOF: errors.Is(err, io.EOF) holds for the injected error although it is not io.EOF itself.
+func WrapsEOF(kind string) bool { return kind == "wrapeof" }
 
 // ---- fake store client ----
 
@@ -240,7 +269,7 @@ type fakeStream struct {
 
 func (f *fakeStore) Series(ctx context.Context, _ *storepb.SeriesRequest, _ ...grpc.CallOption) (storepb.Store_SeriesClient, error) {
 	if f.in.Fail == "open" {
-		return nil, errors.New("injected open failure")
+		return nil, MkErr(f.in.FailKind, "open")
 	}
 	fs := make([]*storepb.SeriesResponse, 0, len(f.in.Frames))
 	for _, fr := range f.in.Frames {
@@ -279,7 +308,7 @@ func (s *fakeStream) Recv() (r *storepb.SeriesResponse, err error) {
 			<-s.ctx.Done() // blocks until the frame timeout (or the caller) cancels the stream
 			return nil, s.ctx.Err()
 		}
-		return nil, errors.New("injected recv failure")
+		return nil, MkErr(s.st.in.FailKind, "recv")
 	}
 	if s.i >= len(s.frames) {
 		return nil, io.EOF
